@@ -283,7 +283,11 @@ func (e *Exec) ApplyOpNoModel(tx *bolt.Tx, op Op, writable bool) {
 	switch op.Kind {
 	case "put":
 		if !isRoot && writable {
-			_ = rb.Put(key, MkVal(op.VLen, op.VTag))
+			if op.NilV {
+				_ = rb.Put(key, nil)
+			} else {
+				_ = rb.Put(key, MkVal(op.VLen, op.VTag))
+			}
 		}
 	case "get":
 		if !isRoot {
@@ -353,7 +357,14 @@ func (e *Exec) ApplyOp(tx *bolt.Tx, w *model.Bucket, op Op, writable bool) {
 		if en := mb.M[string(key)]; en != nil && en.B != nil {
 			allowed = append(allowed, berrors.ErrIncompatibleValue)
 		}
-		err := rb.Put(key, val)
+		var err error
+		if op.NilV {
+			// a nil slice is the empty byte string: the key must exist afterwards with an empty value
+			val = []byte{}
+			err = rb.Put(key, nil)
+		} else {
+			err = rb.Put(key, val)
+		}
 		if e.expectErr(what, err, allowed) {
 			mb.M[string(key)] = &model.Entry{Val: val}
 		}
